@@ -164,6 +164,47 @@ def lookup_order(ctx, res):
                "returned pointer is not protected from being replaced)",
                [f"{CREL}:{l}" for l in dict.fromkeys(badp.lines) if l]
                if badp else None)
+    # the same discipline where an `<name>_items` trait is added on demand:
+    # the event is fired through the trait add_trait() installed (a clone
+    # carrying the listeners and static handlers), found by a fresh lookup
+    paths, _, g = paths_of(ctx, "_has_traits_items_event")
+    n_add = 0
+    badp = None
+    why = ""
+    for p in paths:
+        fire = [i for i, t in enumerate(p.trace) if t[0] == "call"
+                and t[1] == "->setattr"]
+        if not fire:
+            continue
+        recv = p.trace[fire[-1]][2][0]
+        adds = [i for i, t in enumerate(p.trace[:fire[-1]])
+                if t[0] == "call" and t[1] == "PyObject_CallMethod"
+                and any("add_trait" in a for a in t[2])]
+        looks = [i for i, t in enumerate(p.trace[:fire[-1]])
+                 if t[0] == "call" and t[3] == recv
+                 and t[1] in ("dict_getitem", "PyDict_GetItem", "get_trait")]
+        if adds:
+            n_add += 1
+        if not looks:
+            badp, why = p, (f"the event is fired through `{recv[:60]}`, "
+                            f"which is not the result of a trait lookup")
+        elif adds and looks[-1] < adds[-1]:
+            badp, why = p, (f"`{recv[:60]}` was looked up before add_trait "
+                            f"ran")
+    res.instance("_has_traits_items_event",
+                 facts.loc(facts.func("_has_traits_items_event")),
+                 paths_with_add_trait=n_add)
+    if n_add == 0:
+        raise AnalysisError("_has_traits_items_event: add_trait path not "
+                            "found")
+    res.oblige(badp is None, "_has_traits_items_event:relookup-after-add-trait",
+               facts.loc(facts.func("_has_traits_items_event")),
+               f"_has_traits_items_event: {why}: the trait add_trait() "
+               f"installs is a clone that carries the listeners of the "
+               f"placeholder and the static _<name>_items_changed handlers; "
+               f"firing through anything else loses the first items event",
+               [f"{CREL}:{l}" for l in dict.fromkeys(badp.lines) if l]
+               if badp else None)
     if sites < 5:
         raise AnalysisError(f"only {sites} lookup sites recognised (floor 5)")
 
